@@ -153,6 +153,8 @@ def child_env(hashseed=None):
 
 
 DEADLINE = [None]
+_FINISHED = threading.Event()
+HARDSTOP = threading.Event()          # set by the watchdog when the thorough tier's hard limit (budget + grace) is reached
 
 
 def run_job(job):
@@ -174,6 +176,8 @@ def run_job(job):
             res = json.loads(lines[-1])
         elif _STOP.is_set():
             res = {'id': job['id'], 'kind': job['kind'], 'skipped': True}
+        elif HARDSTOP.is_set() and job['kind'] == 'verify':
+            res = {'id': job['id'], 'kind': job['kind'], 'not_run': True, 'killed_at_limit': True}
         else:
             res = {'id': job['id'], 'kind': job['kind'],
                    'crash': 'no output; stderr: ' + err[-2000:]}
@@ -296,10 +300,10 @@ def check_property(prop, tier='quick', only=None, verbose=True):
                                  wmod='w_' + jid, hmod=hmodname, hfn=h['fn'],
                                  call_args=call_args, vec=vec, workdir=workdir,
                                  verif=VERIF, timeout=120, path_timeout=120))
-        # thorough tier: a wall-clock budget (VERIF_BUDGET_S, default 450 s; 0 = unlimited) after which no further slice is
+        # thorough tier: a wall-clock budget (VERIF_BUDGET_S, default 300 s; 0 = unlimited) after which no further slice is
         # started; slices that were not started are reported as not explored (never as confirmed).  The twins run first, the
         # slices of the harnesses are interleaved so that every harness gets its share of the budget.
-        budget = float(os.environ.get('VERIF_BUDGET_S', '0' if tier == 'quick' else '450') or 0)
+        budget = float(os.environ.get('VERIF_BUDGET_S', '0' if tier == 'quick' else '300') or 0)
         DEADLINE[0] = (t_start + budget) if budget > 0 else None
         if DEADLINE[0] is None:
             jobs.sort(key=lambda j: (j['kind'] != 'verify', -j['timeout']))          # longest first
@@ -309,6 +313,24 @@ def check_property(prop, tier='quick', only=None, verbose=True):
                 rank[j['id']] = sum(1 for k in jobs if k['harness'] == j['harness'] and k['kind'] == 'verify' and jobs.index(k) < jobs.index(j))
             jobs.sort(key=lambda j: (j['kind'] == 'verify', rank[j['id']] if j['kind'] == 'verify' else 0))
         hmap0 = {h['name']: h for h in SPEC['harnesses']}
+        if DEADLINE[0] is not None:
+            # hard limit: slices still running half a budget after the deadline are stopped and reported as not explored
+            grace = float(os.environ.get('VERIF_GRACE_S', budget / 2.0))
+
+            def watchdog():
+                while time.time() < DEADLINE[0] + grace:
+                    time.sleep(1.0)
+                    if _FINISHED.is_set():
+                        return
+                HARDSTOP.set()
+                with _PLOCK:
+                    for p in list(_PROCS):
+                        try:
+                            p.kill()
+                        except OSError:
+                            pass
+            _FINISHED.clear()
+            threading.Thread(target=watchdog, daemon=True).start()
         with ThreadPoolExecutor(NPROC) as ex:
             futs = [ex.submit(run_job, j) for j in jobs]
             if FAILFAST:
@@ -322,6 +344,7 @@ def check_property(prop, tier='quick', only=None, verbose=True):
                                 stop_all()
             results = [f.result() for f in futs]
     finally:
+        _FINISHED.set()
         shutil.rmtree(workdir, ignore_errors=True)
 
     hmap = {h['name']: h for h in SPEC['harnesses']}
@@ -501,7 +524,7 @@ def check_property(prop, tier='quick', only=None, verbose=True):
         for i in inconclusive:
             print('INCONCLUSIVE', i)
         if not_explored:
-            print('NOT-EXPLORED %d of %d slices were not started within the time budget of %.0f s (VERIF_BUDGET_S=0 lifts it): %s'
+            print('NOT-EXPLORED %d of %d slices were not started (or not finished half a budget later) within the time budget of %.0f s (VERIF_BUDGET_S=0 lifts it): %s'
                   % (len(not_explored), len(verify), DEADLINE[0] - t_start, ' '.join(not_explored[:12]) + (' ...' if len(not_explored) > 12 else '')))
     for name, vec, rp in violations:
         print('VIOLATION property=%s replay=%s' % (prop, rp))
